@@ -19,6 +19,7 @@ type Ctx struct {
 	Seed     int64
 	RNG      *gen.RNG
 	Workers  int
+	Scale    int
 	Env      map[string]string
 }
 
@@ -44,11 +45,45 @@ func IDs() []string {
 	return ids
 }
 
+// N returns the size of a seeded random workload for the current tier. Sizes are counts of cases
+// (never time budgets); VERIF_SCALE multiplies them (default 1).
 func (c *Ctx) N(quick, thorough int) int {
+	n := quick
 	if c.Thorough {
-		return thorough
+		n = thorough
 	}
-	return quick
+	if c.Scale > 0 {
+		n *= c.Scale
+	}
+	return n
+}
+
+// batcher judges generated cases in chunks so that large workloads are never materialised as a whole.
+type batcher[T any] struct {
+	c     *Ctx
+	buf   []T
+	judge func(*Ctx, T)
+	keep  []T // every keepEvery-th case, for follow-up sub-checks
+	every int
+	n     int
+}
+
+func newBatcher[T any](c *Ctx, judge func(*Ctx, T), keepEvery int) *batcher[T] {
+	return &batcher[T]{c: c, judge: judge, every: keepEvery}
+}
+func (b *batcher[T]) add(k T) {
+	b.buf = append(b.buf, k)
+	b.n++
+	if b.every > 0 && b.n%b.every == 0 {
+		b.keep = append(b.keep, k)
+	}
+	if len(b.buf) >= 1<<16 {
+		b.flush()
+	}
+}
+func (b *batcher[T]) flush() {
+	parallelJudge(b.c, b.buf, b.judge)
+	b.buf = b.buf[:0]
 }
 
 func defaultWorkers() int {
